@@ -43,6 +43,11 @@ example : uncovered [("src/yaml/chunker.rs", "Chunker::next", "unwrap", 2)] cove
     = [("src/yaml/chunker.rs", "Chunker::next", "unwrap", 2)] := by decide
 example : uncovered [("src/msgpack.rs", "try_read_length", "index", 1)] covered
     = [("src/msgpack.rs", "try_read_length", "index", 1)] := by decide
+/-- A `*` account is per file and kind: the mmap block may move to another
+function of main.rs, a second one is detected. -/
+example : uncovered [("src/main.rs", "try_mmap", "unsafe_block", 1)] covered = [] := by decide
+example : uncovered [("src/main.rs", "try_mmap", "unsafe_block", 1), ("src/main.rs", "InputPath::open", "unsafe_block", 1)] covered
+    = [("src/main.rs", "try_mmap", "unsafe_block", 1), ("src/main.rs", "InputPath::open", "unsafe_block", 1)] := by decide
 /-- …and an unsafe site explained by a tag that is not `delegated:` is rejected. -/
 example : uncovered [("src/yaml/chunker/parser.rs", "Parser::new", "panic", 1)] (covered.filter isUnsafeAccount)
     = [("src/yaml/chunker/parser.rs", "Parser::new", "panic", 1)] := by decide
